@@ -54,6 +54,8 @@ func pipeAlphabet(cfg Cfg) []wire.Op {
 		{Kind: "touch", Key: "a", TTL: 10},
 		{Kind: "mget", Keys: []string{"a", "b"}, Quiet: []bool{bin, false}},
 		{Kind: "mget", Keys: []string{"c", "a", "a"}, Quiet: []bool{bin, bin, false}},
+		{Kind: "set", Key: "k%3A%s%d%", Val: "pct", Flags: 3},
+		{Kind: "mget", Keys: []string{"k%3A%s%d%", "a"}, Quiet: []bool{bin, false}},
 		{Kind: "noop"},
 		{Kind: "version"},
 		{Kind: "stat"},
